@@ -240,15 +240,20 @@ impl NameClass {
 struct Namer<'a> {
     next: usize,
     target: Option<(usize, &'a str)>,
+    /// rename every name through this map (old -> new) instead of one position
+    map: Option<&'a BTreeMap<String, String>>,
     classes: Vec<NameClass>,
     /// false if the substitution would create a duplicate name / hash among siblings
     ok: bool,
 }
 impl Namer<'_> {
-    fn visit(&mut self, class: NameClass) -> Option<String> {
+    fn visit(&mut self, class: NameClass, current: &str) -> Option<String> {
         let id = self.next;
         self.next += 1;
         self.classes.push(class);
+        if let Some(m) = self.map {
+            return m.get(current).cloned();
+        }
         match self.target {
             Some((k, s)) if k == id => Some(s.to_string()),
             _ => None,
@@ -268,8 +273,8 @@ impl Namer<'_> {
                     NameClass::VariantTag
                 };
                 for i in 0..fs.len() {
-                    if let PLabel::Named(_) = fs[i].0 {
-                        if let Some(s) = self.visit(class) {
+                    if let PLabel::Named(cur) = fs[i].0.clone() {
+                        if let Some(s) = self.visit(class, &cur) {
                             fs[i].0 = PLabel::Named(s);
                         }
                     }
@@ -287,8 +292,8 @@ impl Namer<'_> {
     }
     fn args(&mut self, a: &mut [(Option<String>, PTy)]) {
         for (n, t) in a.iter_mut() {
-            if n.is_some() {
-                if let Some(s) = self.visit(NameClass::ArgName) {
+            if let Some(cur) = n.clone() {
+                if let Some(s) = self.visit(NameClass::ArgName, &cur) {
                     *n = Some(s);
                 }
             }
@@ -301,7 +306,8 @@ impl Namer<'_> {
     }
     fn meths(&mut self, ms: &mut Vec<(String, PTy)>, class: NameClass) {
         for (n, t) in ms.iter_mut() {
-            if let Some(s) = self.visit(class) {
+            let cur = n.clone();
+            if let Some(s) = self.visit(class, &cur) {
                 *n = s;
             }
             match t {
@@ -338,7 +344,7 @@ impl Namer<'_> {
 
 /// Classes of all (text) name positions of `p`, in traversal order.
 pub fn name_positions(p: &Prog) -> Vec<NameClass> {
-    let mut n = Namer { next: 0, target: None, classes: vec![], ok: true };
+    let mut n = Namer { next: 0, target: None, map: None, classes: vec![], ok: true };
     let mut q = p.clone();
     n.prog(&mut q);
     n.classes
@@ -347,7 +353,68 @@ pub fn name_positions(p: &Prog) -> Vec<NameClass> {
 /// `p` with the name at position `k` replaced by `s`; `None` if that makes sibling names
 /// (or their hashes) collide, i.e. the program would not be well-formed.
 pub fn with_name(p: &Prog, k: usize, s: &str) -> Option<Prog> {
-    let mut n = Namer { next: 0, target: Some((k, s)), classes: vec![], ok: true };
+    let mut n = Namer { next: 0, target: Some((k, s)), map: None, classes: vec![], ok: true };
+    let mut q = p.clone();
+    n.prog(&mut q);
+    if n.ok {
+        Some(q)
+    } else {
+        None
+    }
+}
+
+/// All distinct names (labels, method names, argument names) of `p`.
+pub fn all_names(p: &Prog) -> BTreeSet<String> {
+    fn ty(t: &PTy, out: &mut BTreeSet<String>) {
+        match t {
+            PTy::Record(fs) | PTy::Variant(fs) => {
+                for (l, _) in fs {
+                    if let PLabel::Named(s) = l {
+                        out.insert(s.clone());
+                    }
+                }
+            }
+            PTy::Func(f) => {
+                for (n, _) in f.args.iter().chain(f.rets.iter()) {
+                    if let Some(n) = n {
+                        out.insert(n.clone());
+                    }
+                }
+            }
+            PTy::Service(ms) => {
+                for (n, _) in ms {
+                    out.insert(n.clone());
+                }
+            }
+            _ => {}
+        }
+        for c in t.children() {
+            ty(c, out);
+        }
+    }
+    let mut out = BTreeSet::new();
+    for (_, t) in &p.defs {
+        ty(t, &mut out);
+    }
+    match &p.actor {
+        Some(PActor::Service(t)) => ty(t, &mut out),
+        Some(PActor::Class(args, t)) => {
+            for (n, a) in args {
+                if let Some(n) = n {
+                    out.insert(n.clone());
+                }
+                ty(a, &mut out);
+            }
+            ty(t, &mut out)
+        }
+        None => {}
+    }
+    out
+}
+
+/// `p` with every name renamed through `map`; `None` if the result is not well-formed.
+pub fn rename_all(p: &Prog, map: &BTreeMap<String, String>) -> Option<Prog> {
+    let mut n = Namer { next: 0, target: None, map: Some(map), classes: vec![], ok: true };
     let mut q = p.clone();
     n.prog(&mut q);
     if n.ok {
